@@ -457,7 +457,8 @@ ExploreEffect(W, S, ev) == IF ev.memo_put = "" THEN S ELSE [S EXCEPT !.memo = (e
 \* ev.weights : sequence of naturals, ev.results[s] : index (1-based) chosen when the generator returns seed s
 SelectClauses(W, S, ev) ==
   LET tot == LET RECURSIVE Sm(_) Sm(i) == IF i > Len(ev.weights) THEN 0 ELSE ev.weights[i] + Sm(i + 1) IN Sm(1) IN
-  [ every_seed_observed |-> Len(ev.results) = tot,
+  [ draws_one_of_total  |-> ev.ndraws = 1 /\ ev.lo = 1 /\ ev.hi = tot,          \* one draw, uniform over 1..total
+    every_seed_observed |-> Len(ev.results) = tot,
     no_exception        |-> ev.exc = "none",
     index_in_range      |-> \A s \in 1..Len(ev.results) : ev.results[s] \in 1..Len(ev.weights),
     weight_exact        |-> \A i \in 1..Len(ev.weights) :
